@@ -296,6 +296,15 @@ def build(ns, spec, override=None):
                     q_["citation"] = ["[1]"]
                 feats.append(SeqFeature(FeatureLocation(lo_, hi_, strand=1), type="rep_origin", id="common-ori", qualifiers=q_))
         ann = {"molecule_type": "DNA"}
+        if spec["feat_seed"] % 5 in (1, 2):
+            # record-level annotations as other readers / hand-written code leave them: dates in several spellings and types,
+            # lists, nested mappings
+            import datetime as _dt
+            ann["date"] = ["12-MAR-2019", "2019-03-12", _dt.datetime(2019, 3, 12, 10, 30), ["12-MAR-2019"], _dt.date(2019, 3, 12), 20190312][(spec["feat_seed"] // 5 + j) % 6]
+            ann["keywords"] = ["", "golden gate"][(j + 1) % 2:]
+            ann["taxonomy"] = []
+            ann["structured_comment"] = {"Assembly-Data": {"Sequencing Technology": "Sanger"}}
+            ann["comment"] = "a remark of the depositor\nover two lines" if j % 2 else ["a remark", "as a list"]
         if spec["topology"] is not None:
             ann["topology"] = spec["topology"]
         if refs:
@@ -317,6 +326,12 @@ def build(ns, spec, override=None):
                 rec = copy.deepcopy(rec)
             rec.seq = Seq(text)
             rec.features = feats
+        lt_ = spec["feat_seed"] % 7
+        if lt_ in (1, 2, 3):
+            # per-letter annotations (sequencing qualities): on every record with the same key, or only on some, as lists or tuples
+            if lt_ in (1, 3) or j % 2 == 0:
+                vals_ = [(q_ * 7 + j) % 41 for q_ in range(len(rec.seq))]
+                rec.letter_annotations["phred_quality"] = tuple(vals_) if (lt_ == 3 and j == 0) else vals_
         if spec.get("replace_annotations") and spec["topology"] is None:
             rec.annotations = {k_: v_ for k_, v_ in rec.annotations.items() if k_ != "topology"}    # a new mapping, set by the caller
         records.append(rec)
